@@ -1,8 +1,8 @@
 #!/bin/bash
 # tools/seedbatch.sh <parallel> C16-A C16-B ...  — evaluate seeds (skip suite), summarize
 cd /verif; par=$1; shift
-run() { id=$1; p=${id%-*}; x=${id#*-}; python3 tools/seedeval.py $p /tmp/seeds/out-$p/$x --skip-suite ${EXTRA:-} > .scratch/seedeval-$id.json 2>&1; python3 -c "
+run() { id=$1; p=${id%-*}; x=${id#*-}; python3 tools/seedeval.py $p ${SEEDDIR:-/tmp/seeds}/out-$p/$x --skip-suite ${EXTRA:-} > .scratch/seedeval${SEEDTAG:-}-$id.json 2>&1; python3 -c "
 import json
-d=json.load(open('.scratch/seedeval-$id.json')); print('$id', {k:v for k,v in d.items() if k in ('applies','builds','demo_fails_on_patched','demo_passes_on_pristine','applied_with_3way')}, {c:(v['exit'],v['violation_classes'][:4]) for c,v in (d.get('checks') or {}).items()})"; }
+d=json.load(open('.scratch/seedeval${SEEDTAG:-}-$id.json')); print('$id', {k:v for k,v in d.items() if k in ('applies','builds','demo_fails_on_patched','demo_passes_on_pristine','applied_with_3way')}, {c:(v['exit'],v['violation_classes'][:4]) for c,v in (d.get('checks') or {}).items()})"; }
 export -f run
 printf '%s\n' "$@" | xargs -P $par -I{} bash -c 'run {}'
